@@ -63,6 +63,12 @@ def run(ops):
                 nc.remove_notes([x if isinstance(x, str) else Note(x[0], x[1]) for x in op[1]])
             elif t == "minus":
                 nc = nc - [x if isinstance(x, str) else Note(x[0], x[1]) for x in op[1]]
+            elif t == "transpose":
+                nc.transpose(op[1], op[2])
+            elif t == "augment":
+                nc.augment()
+            elif t == "diminish":
+                nc.diminish()
             out.append(state(nc))
         except Exception as e:
             from tools.framework import err_of
